@@ -91,7 +91,8 @@ def check(sid, props, tier="quick"):
             t0 = time.time()
             p = subprocess.run([os.path.join(VERIF, "check"), prop, "--tier", tier, "--tree", wt], capture_output=True, text=True, env=env)
             viol = [l for l in p.stdout.splitlines() if l.startswith("violation:")]
-            res[prop] = {"rc": p.returncode, "wall": round(time.time() - t0, 1),
+            res[prop] = {"rc": p.returncode, "violation_line": any(l.startswith("VIOLATION property=") for l in p.stdout.splitlines()),
+                         "wall": round(time.time() - t0, 1),
                          "first": (viol[0][:300] if viol else (p.stdout.strip().splitlines() or [p.stderr[-200:]])[-1][:300])}
     finally:
         drop_tree(d, wt)
@@ -152,7 +153,7 @@ def main():
                 print("NOAPPLY %s %s :: %s" % (sid, meta["property"], str(e)[:120]))
                 missed.append(sid)
                 continue
-            ok = r[meta["property"]]["rc"] == 1
+            ok = r[meta["property"]]["rc"] == 1 and r[meta["property"]]["violation_line"]
             print("%s %s %s :: %s" % ("CAUGHT" if ok else "MISSED", sid, meta["property"], r[meta["property"]]["first"][:200]))
             if not ok:
                 missed.append(sid)
